@@ -154,6 +154,8 @@ func StartWatchdog(c *Check, id string) {
 		gen   uint64
 		ticks int
 	}
+	var heapAtStart [nSlots]uint64 // heap size when the call in the slot was first seen
+	var lastHeap uint64
 	report := func(what, logName, headline string) {
 		buf := make([]byte, 8<<20)
 		n := runtime.Stack(buf, true)
@@ -209,6 +211,7 @@ func StartWatchdog(c *Check, id string) {
 			metrics.Read(sample)
 			if sample[0].Value.Kind() == metrics.KindUint64 {
 				heap := sample[0].Value.Uint64()
+				lastHeap = heap
 				if heap > peakHeap.Load() {
 					peakHeap.Store(heap)
 				}
@@ -216,9 +219,12 @@ func StartWatchdog(c *Check, id string) {
 					// attribution: a reader or evaluation that builds without end is ONE call
 					// that has been in flight for a while; when every call in flight is
 					// young, the memory is the harness's own (a large state space)
+					// ... and the heap must have grown by at least half the limit WHILE that
+					// call was in flight (under memory pressure of the harness's own making
+					// every call gets slow, but none of them is what grows)
 					oldest := 0
 					for i := range slots {
-						if slots[i].state.Load() >= 2 && seen[i].ticks > oldest {
+						if slots[i].state.Load() >= 2 && seen[i].ticks > oldest && heap > heapAtStart[i] && heap-heapAtStart[i] >= limit/2 {
 							oldest = seen[i].ticks
 						}
 					}
@@ -247,6 +253,7 @@ func StartWatchdog(c *Check, id string) {
 					}
 				default:
 					seen[i].gen, seen[i].ticks = st, 0
+					heapAtStart[i] = lastHeap
 				}
 			}
 		}
